@@ -223,8 +223,18 @@ pub fn check_block(b: &Block, rec: &mut Rec) -> Result<(), String> {
     rig.border_reset()?; // border red, a known starting point
     let ay_ok = rig.ay_ok();
     let border_ok = rig.p_border.is_some();
+    // reference values of the three mouse registers, read through addresses of their decode
+    // class that the extender does not claim (not judged in a configuration without such)
+    let mouse_port = |dev: Dev, cands: &[u16]| cands.iter().copied().find(|p| !ext_claims(cfg, *p) && decode(cfg, *p, false).0 == vec![dev]);
     let canon_mouse = if cfg.mouse {
-        Some((port_in(&mut rig.e, 0xFADF)?, port_in(&mut rig.e, 0xFBDF)?, port_in(&mut rig.e, 0xFFDF)?))
+        match (
+            mouse_port(Dev::MouseButtons, &[0xFADF, 0x00DF, 0xF2DF, 0x08DF]),
+            mouse_port(Dev::MouseX, &[0xFBDF, 0x01DF, 0xF3DF, 0x09DF]),
+            mouse_port(Dev::MouseY, &[0xFFDF, 0x05DF, 0xF7DF, 0x0DDF]),
+        ) {
+            (Some(b), Some(x), Some(y)) => Some((port_in(&mut rig.e, b)?, port_in(&mut rig.e, x)?, port_in(&mut rig.e, y)?)),
+            _ => None,
+        }
     } else {
         None
     };
